@@ -265,6 +265,14 @@ def markLate (t delta lam : Nat) (b : BState) : BState :=
                           | some dl => if t + delta + lam ≤ dl then dl else t + delta + lam
                           | none => t + delta + lam) }
 
+/-- cron's `recalc(read)`. All blocks of one alarm get the same reading; when the output event of one of
+    them reconfigures a block synchronously INSIDE the alarm processing, that block's own `config` reading
+    is already later than the reading cron hands to it afterwards: such an older reading changes neither
+    the latest reading nor a pending deadline -/
+def recalcBlock (b : BState) (read : Nat) (out : Bool) : BState :=
+  if read < b.last then { b with out := out }
+  else { b with last := read, out := out, stale := none }
+
 /-- bookkeeping only: which configuration is current, the latest reading, pending jumps -/
 def apply (p : Params) (st : State) : Rec → State
   | .config blk cfg read out =>
@@ -276,8 +284,8 @@ def apply (p : Params) (st : State) : Rec → State
                            | none => none } }
   | .recalc blk read out =>
     match st.blocks blk with
-    | some b => { st with now := read,
-                          blocks := update st.blocks blk { b with last := read, out := out, stale := none } }
+    | some b => { st with now := if st.now ≤ read then read else st.now,
+                          blocks := update st.blocks blk (recalcBlock b read out) }
     | none => st
   | .jump t delta =>
     { st with now := t + delta, graceEnd := t + delta + p.bound,
@@ -318,8 +326,10 @@ def verdict (p : Params) (st : State) : Rec → Verdict
     match st.blocks blk with
     | none => .order
     | some b =>
-      if read < st.now then .order
-      else if out ≠ pred p.cal b.cfg read then .s1
+      if out ≠ pred p.cal b.cfg read then .s1
+      else if read < b.last then
+        -- a reading older than the block's own latest one: harmless iff it gives the same output
+        (if out ≠ pred p.cal b.cfg b.last then .s1 else .ok)
       else coverage p b read
   | .jump t _ => if t < st.now then .order else .ok
   | .probe t blk out =>
